@@ -132,6 +132,11 @@ func place(t *rapid.T, typ string, target clienttypes.Height, nUpd int) clientPl
 	if h > math.MaxInt64-uint64(nUpd)-1 {
 		nUpd = 0
 	}
+	// clienttypes.SetRevisionNumber renders revisions >= 2^63 as negative numbers, so a Tendermint client
+	// at such a revision rejects every header (not a C13 matter): create-only
+	if typ == tTM && p.Rev > math.MaxInt64 {
+		nUpd = 0
+	}
 	varyRev := typ != tTM && nUpd > 0 && rapid.IntRange(0, 3).Draw(t, "revVaries") == 0
 	for i := 0; i < nUpd; i++ {
 		r := p.Rev
@@ -378,6 +383,9 @@ func (g *gen) packets() {
 		switch rapid.SampledFrom([]string{"send", "send", "recv", "recv", "writeAck", "ack", "setRecv", "setSend"}).Draw(t, "packetOp") {
 		case "send":
 			d := g.clients[rapid.IntRange(0, len(g.clients)-1).Draw(t, "dst")]
+			if g.seenRcv["setSend:"+d.Name] {
+				continue // the packet contract's own counter is not moved by the setter
+			}
 			seq := pk.GetNextSequenceSend(ctx, g.native, d.Name)
 			p, _ := g.mkPacket(g.native, d.Name, seq)
 			kit.Must(pk.SendPacket(ctx, &p), "SendPacket")
@@ -477,6 +485,7 @@ func (g *gen) packets() {
 				continue
 			}
 			pk.SetNextSequenceSend(ctx, g.native, d.Name, seq)
+			g.seenRcv["setSend:"+d.Name] = true
 			p, _ := g.mkPacket(g.native, d.Name, seq-1)
 			cm, err := packettypes.CommitPacket(&p)
 			kit.Must(err, "commit")
@@ -493,7 +502,7 @@ func (g *gen) packets() {
 	}
 }
 
-var coinDenoms = []string{"acoin", "bcoin", "stake2", "gamm/pool/1", "a:b.c-d_e", "ibc/27394FB092D2ECCD56123C74F36E4C1F926001CEADA9CA97EA622B25F41E5EB2", "zzzz"}
+var coinDenoms = []string{"acoin", "bcoin", "stake2", "gamm/pool/1", "a-b/c-d", "ibc/27394FB092D2ECCD56123C74F36E4C1F926001CEADA9CA97EA622B25F41E5EB2", "zzzz"}
 
 func (g *gen) freeDenom() (string, bool) {
 	ak := g.e.c.App.AggregateKeeper
@@ -538,7 +547,7 @@ func (g *gen) registry() {
 			kit.Must(err, "RegisterCoin")
 			g.pairs = append(g.pairs, pairRec{pair.GetERC20Contract(), "coin"})
 			g.cl.add("pair:coin")
-			if strings.ContainsAny(d, "/:") {
+			if strings.ContainsAny(d, "/-") {
 				g.cl.add("pair:denom_with_separator")
 			}
 			g.logf("registerCoin %s -> %s", d, pair.ERC20Address)
@@ -548,7 +557,7 @@ func (g *gen) registry() {
 			dec := rapid.SampledFrom([]uint8{0, 6, 18}).Draw(t, "decimals")
 			ctor, err := erc20contracts.ERC20MinterBurnerDecimalsContract.ABI.Pack("", name, strings.ToUpper(name), dec)
 			kit.Must(err, "pack ctor")
-			from := g.tss.Addr
+			from := g.e.c.Accounts[1].Addr
 			nonce := app.EvmKeeper.GetNonce(ctx, from)
 			res, err := ak.CallEVMWithData(ctx, from, nil, append(append([]byte{}, erc20contracts.ERC20MinterBurnerDecimalsContract.Bin...), ctor...))
 			kit.Must(err, "deploy erc20")
@@ -574,7 +583,7 @@ func (g *gen) registry() {
 	}
 }
 
-var rewardDenoms = []string{"atele", "bbb", "ibc/27394FB092D2ECCD56123C74F36E4C1F926001CEADA9CA97EA622B25F41E5EB2", "zzz", "a:b.c-d_e"}
+var rewardDenoms = []string{"atele", "bbb", "ibc/27394FB092D2ECCD56123C74F36E4C1F926001CEADA9CA97EA622B25F41E5EB2", "zzz", "a-b/c-d"}
 
 func (g *gen) params() {
 	t := g.t
